@@ -11,6 +11,7 @@ import (
 	"runtime"
 	"strconv"
 	"sync"
+	"time"
 	"unsafe"
 )
 
@@ -190,6 +191,15 @@ func vFmtInt(k int, s string) uint64 {
 	panic(vSkip{"vFmtInt: no such integer"})
 }
 func vTokOperand(k int) uint64 { panic(vSkip{"vTokOperand has no native counterpart"}) }
+
+// vSettle: let the other goroutines run until they wait (natively: give them time)
+func vSettle() {
+	for i := 0; i < 50; i++ {
+		runtime.Gosched()
+		time.Sleep(200 * time.Microsecond)
+	}
+}
+func vParkedCount() int { panic(vSkip{"vParkedCount has no native counterpart"}) }
 
 // token bookkeeping of the symbolic build; natively the rendered string itself is parsed
 func vTokMark() int { return 0 }
